@@ -1221,8 +1221,14 @@ package rockredis
 //@ func (r *RockDB) NewDBRangeLimitIteratorWithOpts(opts engine.IteratorOpts) (*engine.RangeLimitedIterator, error)
 //@   trusted opens an engine iterator (engine contract, C20)
 //@   ensures result1 == nil ==> result0 != nil && fresh(result0) && rliOK(result0)
+// (zRemAll: partial contract - the keys and ranges it deletes are built from the set's own table and VERSIONED key: the
+// score-index range [RangeStart, RangeEnd), the member-index range of (table, rk), the size key of the raw key)
 //@ func (db *RockDB) zRemAll(ts int64, key []byte, wb engine.WriteBatch) (int64, error)
-//@   trusted removes every member and the meta of a live sorted set (checks expiry itself)
+//@   opt only=ASSERT
+//@   callassert zEncodeStartSetKey sameSlice(arg0, keyInfo.Table) && sameSlice(arg1, keyInfo.VerKey)
+//@   callassert zEncodeStopSetKey sameSlice(arg0, keyInfo.Table) && sameSlice(arg1, keyInfo.VerKey)
+//@   callassert zEncodeSizeKey sameSlice(arg0, key)
+//@   callassert zRemRangeBytes sameSlice(arg2, key) && arg4 == 0 && arg5 == -1
 //@   modifies ghost(wbputs, wb), ghost(wbdels, wb), ghost(wbver, wb), ghost(tblcnt, db)
 //@ func (db *RockDB) internalZRemRangeByLex(ts int64, key []byte, min []byte, max []byte, rangeType uint8, wb engine.WriteBatch) (int64, error)
 //@   trusted nooverflow removal counter
